@@ -217,7 +217,7 @@ def _worker(args):
     for i in idxs:
         seed = run_seed(mod.PROP, tier, i, base)
         try:
-            case = mod.generate(seed, tier)
+            case = mod.generate(seed, tier, i) if getattr(mod, "GENERATE_WITH_INDEX", False) else mod.generate(seed, tier)
         except Exception as e:
             return {"harness_error": "generator: " + "".join(traceback.format_exception(type(e), e, e.__traceback__)),
                     "index": i, "seed": seed}
@@ -252,6 +252,8 @@ def _worker(args):
                "digest12": digest(res.get("log", []), 12),
                "cdigest": case_digest(case),
                "batch": case.get("batch", "fault_free")}
+        if "payload" in res:
+            rec["payload"] = res["payload"]
         if rec["failures"] or i < keep_cases:
             rec["case"] = case
         out.append(rec)
